@@ -174,6 +174,9 @@ def execute(plan, want_refs=True, timeout=120.0, coverage=False):
 
     # ---- O2: argument immutability (recorded by the history itself)
     for r in recs:
+        if prop == "C15":
+            break       # C15 does not state immutability: an idempotent in-place normalisation keeps every translation equal;
+                        # residue is judged through the later steps (O5); the snapshot stays a probe
         for name in r.get("o2", []):
             viol("O2", r, "mutated:" + obj_kind(plan, idx, name), f"the public state of {name} reads differently after step {r['id']} ({r['op']}) than before it")
 
@@ -219,8 +222,8 @@ def execute(plan, want_refs=True, timeout=120.0, coverage=False):
     for key, g in groups.items():
         first = g[0]
         for other in g[1:]:
-            if is_text(first) or is_text(other):
-                continue          # judged through what is loaded from it, not letter by letter
+            if is_text(first) or is_text(other) or engine.OPS[first["op"]].writes:
+                continue          # judged through what is loaded from it, not letter by letter / by dump's return value
             if prop == "C15" and first["op"] in ("sc.translate", "sc.solve"):
                 continue          # node labels are free in C15 ("up to a renaming of nodes"): judged by isomorphism (O5)
             d = C.diff(first["result"], other["result"])
@@ -244,7 +247,7 @@ def execute(plan, want_refs=True, timeout=120.0, coverage=False):
                 viol("O1", r, "isolated-run-differs-in-kind", f"in isolation the chain ends with status {ref['status']} at {ref['id']}")
                 continue
             stats["o1_compared"] += 1
-            d = None if is_text(r) else C.diff(r["result"], ref["result"])
+            d = None if (is_text(r) or engine.OPS[r["op"]].writes) else C.diff(r["result"], ref["result"])
             if d and numeric_only(r["result"], ref["result"]):
                 # before a purely numerical difference is reported: is the isolated answer itself stable when only the
                 # memory layout of the process changes?  (BLAS kernels may round differently for other alignments; an
